@@ -444,6 +444,26 @@ fn run_generic<const N: usize>(c: &ACase) -> Result<u64, String> {
                         let _ = bb.write(&src[..m.min(40)]);
                         let _ = measured!("io::copy into a sink", N > 0 && m > 0, std::io::copy(&mut bb, &mut std::io::sink()));
                         let _ = measured!("io::Read::take + read", false, Read::by_ref(&mut bb).take(3).read(&mut dst[..5]));
+                        // text-oriented provided methods: valid text, and invalid UTF-8 (their error paths must not allocate);
+                        // the destination has its capacity reserved outside the measured window
+                        let mut text = String::with_capacity(256);
+                        bb.clear();
+                        let _ = bb.write(b"ab\ncd");
+                        let _ = measured!("io::BufRead::read_line (valid text)", N > 0, bb.read_line(&mut text));
+                        let _ = measured!("io::Read::read_to_string (valid text)", false, bb.read_to_string(&mut text));
+                        bb.clear();
+                        let _ = bb.write(b"a\xffb\nyo\xc3");
+                        let e1 = measured!("io::BufRead::read_line (invalid UTF-8)", false, bb.read_line(&mut text));
+                        let e2 = measured!("io::Read::read_to_string (invalid UTF-8)", false, bb.read_to_string(&mut text));
+                        if N >= 8 && (e1.is_ok() || e2.is_ok()) {
+                            return Err("harness self-check: invalid UTF-8 was accepted as text".into());
+                        }
+                        measured!("dropping the text errors", false, drop((e1, e2)));
+                        let mut sink = Vec::with_capacity(256);
+                        let _ = bb.write(b"xyz\nq");
+                        let _ = measured!("io::BufRead::read_until", false, bb.read_until(b'\n', &mut sink));
+                        let _ = measured!("io::BufRead::skip_until", false, bb.skip_until(b'q'));
+                        let _ = measured!("io::BufRead::has_data_left-like fill_buf", false, bb.fill_buf().map(|s| s.is_empty()));
                     }
                     #[cfg(not(feature = "cb-std"))]
                     {
